@@ -6,6 +6,8 @@ test WITHOUT importing them and regenerates lean/Generated/ConfigProps.lean:
     `DefaultSrc` (literal / os.getenv(NAME, None) / cast_str_to_bool(os.getenv(NAME, d)) / {});
   * the `handle_path` calls of `Config.init` in source order (guard, loop, path kind, handler,
     raise_not_found) and the `os.getenv` calls of `init` (name, default);
+  * the body of `Config.update` statement by statement, the expression assigned to `difference` (the unknown-setting
+    test), its `if difference: raise ConfigError` shape;
   * `Xdg` / `MacOs` `common_config_base_dir_default`, the env names `Xdg.get_config_user` /
     `get_config_common` read, the `expanduser` argument, the `get_platform_paths(...)` arguments.
 
@@ -283,6 +285,33 @@ def render(repo: Path) -> str:
                       ('load_pyproject_toml', excepts(find_def(cls, 'load_pyproject_toml'))),
                       ('handle_path', excepts(find_def(cls, 'handle_path'))),
                       ('update', excepts(find_def(cls, 'update'))), ('init', excepts(init))]
+    # Config.update: the whole body (docstring dropped), statement by statement, and every expression assigned to `difference`
+    upd = find_def(cls, 'update')
+    upd_body = [s for s in upd.body
+                if not (isinstance(s, ast.Expr) and isinstance(s.value, ast.Constant) and isinstance(s.value.value, str))]
+    update_body = [ast.unparse(s) for s in upd_body]
+    update_args = [a.arg for a in upd.args.posonlyargs + upd.args.args + upd.args.kwonlyargs]
+    if upd.args.vararg or upd.args.kwarg or upd.decorator_list:
+        raise Shape('Config.update has grown *args / **kwargs / a decorator: re-read it')
+    update_difference = []
+    for n in ast.walk(upd):
+        targets = []
+        if isinstance(n, ast.Assign):
+            targets, val = n.targets, n.value
+        elif isinstance(n, (ast.AnnAssign, ast.AugAssign, ast.NamedExpr)):
+            targets, val = [n.target], n.value
+        for t in targets:
+            for leaf in ast.walk(t):
+                if isinstance(leaf, ast.Name) and leaf.id == 'difference':
+                    update_difference.append(ast.unparse(val) if val is not None else '<no value>')
+    # how the "unknown setting" test is wired: `if <test>: raise <Exc>(...)` statements of update, in source order
+    update_raises = []
+    for n in upd_body:
+        if isinstance(n, ast.If):
+            for r in n.body:
+                if isinstance(r, ast.Raise) and r.exc is not None:
+                    exc = r.exc.func if isinstance(r.exc, ast.Call) else r.exc
+                    update_raises.append(f'if {ast.unparse(n.test)}: raise {ast.unparse(exc)}' + (' else ...' if n.orelse else ''))
     lines = [
         '/- GENERATED by harness/extract_c20.py from pypyr/config.py and pypyr/platform.py — do not edit. -/',
         'import PypyrModel.Config',
@@ -337,6 +366,15 @@ def render(repo: Path) -> str:
         '',
         '/-- the `except` clauses of the loaders, of `handle_path`, `update` and `init`: what is caught at all. -/',
         'def loaderExcepts : List (String × List String) :=\n  [' + ', '.join(f'({lean_str(n)}, [' + ', '.join(lean_str(x) for x in xs) + '])' for n, xs in loader_excepts) + ']',
+        '',
+        '/-- `Config.update(self, input)`: parameter names. -/',
+        'def updateArgs : List String := [' + ', '.join(lean_str(a) for a in update_args) + ']',
+        '/-- every expression assigned to the name `difference` anywhere in `Config.update` (the unknown-setting test). -/',
+        'def updateDifference : List String := [' + ', '.join(lean_str(a) for a in update_difference) + ']',
+        '/-- the `if <test>: raise <Exc>` statements at the top level of `Config.update`, source order. -/',
+        'def updateRaises : List String := [' + ', '.join(lean_str(a) for a in update_raises) + ']',
+        '/-- the body of `Config.update`, statement by statement (`ast.unparse`; docstring and comments dropped). -/',
+        'def updateBody : List String :=\n  [' + ',\n   '.join(lean_str(a) for a in update_body) + ']',
         '',
         'end Pypyr.Generated.ConfigProps',
         '']
